@@ -426,8 +426,20 @@ pub fn run(ctx: &Ctx) {
     run_prop(ctx, "generated-families", shards, per, generated_family, |f, p| run_family(ctx, "generated", f, limit, cpu_factor, p), |f| f.to_json());
 }
 
-pub fn replay(ctx: &Ctx, _sub: &str, case: &Value) -> Judge {
+pub fn replay(ctx: &Ctx, sub: &str, case: &Value) -> Judge {
     let f = Family::from_json(case).ok_or_else(|| Fail::new("bad-replay", "family"))?;
+    if sub == "depth-invariance" {
+        // the same material at depth 3 and at the recorded depth, equal input size
+        let shallow = Family { depth: 3, ..f.clone() };
+        let size = 96 << 10;
+        let (a, b) = (measure(&shallow.input(size / shallow.unit_len())), measure(&f.input(size / f.unit_len())));
+        let per = |x: u64, l: usize| x as f64 / l.max(1) as f64;
+        println!("  depth 3: {:.1} bytes, {:.2} calls per input byte; depth {}: {:.1} bytes, {:.2} calls per input byte", per(a.alloc_bytes, a.len), per(a.calls, a.len), f.depth, per(b.alloc_bytes, b.len), per(b.calls, b.len));
+        if a.outcome == "Ok" && b.outcome == "Ok" && (per(b.alloc_bytes, b.len) > 3.0 * per(a.alloc_bytes, a.len) + 1.0 || per(b.calls, b.len) > 3.0 * per(a.calls, a.len) + 1.0) {
+            return Err(Fail::new("C15/depth-dependent-cost/bytes-requested", format!("cost per input byte at nesting depth {} is more than 3x the cost at depth 3", f.depth)));
+        }
+        return Ok(());
+    }
     let (r, ms) = judge_family(&f, 1 << 20, 40.0);
     for m in &ms {
         println!("  {} bytes: alloc {} calls {} peak {} cpu {} ns -> {}", m.len, m.alloc_bytes, m.calls, m.peak, m.cpu_ns, m.outcome);
